@@ -51,6 +51,10 @@ type c05Op struct {
 	NilValues  bool     `json:"nil_values,omitempty"`
 	Durability int      `json:"durability,omitempty"`
 	TTLms      int64    `json:"ttl_ms,omitempty"`
+	// TTLZero: the TTL option is given with a duration below one millisecond (TTLSubNS nanoseconds, possibly 0):
+	// "expires at once" is not "never expires". TTLSubNS is also added to a non-zero TTLms.
+	TTLZero  bool  `json:"ttl_zero,omitempty"`
+	TTLSubNS int64 `json:"ttl_sub_ns,omitempty"`
 	HasTS      bool     `json:"has_ts,omitempty"`
 	TS         uint64   `json:"ts,omitempty"`
 	OneVersion bool     `json:"one_version,omitempty"`
@@ -186,8 +190,8 @@ func (o c05Op) build() (hrpc.Call, error) {
 		if o.Durability != 0 {
 			opts = append(opts, hrpc.Durability(hrpc.DurabilityType(o.Durability)))
 		}
-		if o.TTLms != 0 {
-			opts = append(opts, hrpc.TTL(time.Duration(o.TTLms)*time.Millisecond))
+		if o.TTLms != 0 || o.TTLZero {
+			opts = append(opts, hrpc.TTL(time.Duration(o.TTLms)*time.Millisecond+time.Duration(o.TTLSubNS)))
 		}
 		if o.SkipBatch && o.Kind != "cas" {
 			opts = append(opts, hrpc.SkipBatch())
@@ -399,11 +403,13 @@ func checkMutation(o c05Op, m *pb.MutationProto, cells []wire.Cell, cellblockFor
 			ttl = a.GetValue()
 		}
 	}
-	if o.TTLms == 0 && ttl != nil {
+	hasTTL := o.TTLms != 0 || o.TTLZero
+	if !hasTTL && ttl != nil {
 		return fmt.Errorf("_ttl attribute although no TTL was requested")
 	}
-	if o.TTLms != 0 && (len(ttl) != 8 || int64(binary.BigEndian.Uint64(ttl)) != o.TTLms) {
-		return fmt.Errorf("_ttl attribute %x, requested %d ms", ttl, o.TTLms)
+	// (millisecond resolution: a remainder below one millisecond may be cut off or rounded)
+	if hasTTL && (len(ttl) != 8 || (int64(binary.BigEndian.Uint64(ttl)) != o.TTLms && !(o.TTLSubNS > 0 && int64(binary.BigEndian.Uint64(ttl)) == o.TTLms+1))) {
+		return fmt.Errorf("_ttl attribute %x, the call was built with TTL(%d ms + %d ns)", ttl, o.TTLms, o.TTLSubNS)
 	}
 	var got []flatCell
 	if cellblockForm {
@@ -853,6 +859,14 @@ func c05GenOp(t *rapid.T) c05Op {
 		}
 		if opt("ttl") {
 			o.TTLms = rapid.Int64Range(1, 1<<40).Draw(t, "ttl")
+			switch rapid.IntRange(0, 5).Draw(t, "ttlshape") {
+			case 0:
+				o.TTLms, o.TTLZero = 0, true
+			case 1:
+				o.TTLms, o.TTLZero, o.TTLSubNS = 0, true, rapid.Int64Range(1, 999999).Draw(t, "ttlsub")
+			case 2:
+				o.TTLSubNS = rapid.Int64Range(1, 999999).Draw(t, "ttlsub")
+			}
 		}
 		if o.Kind == "cas" {
 			o.CasFamily = rapid.StringMatching(`[a-z]{1,3}`).Draw(t, "casf")
@@ -870,7 +884,7 @@ func TestC05_WireContent(t *testing.T) {
 			"check-and-put, scan open / continue / close / renew) over four regions incl. a namespaced table and an "+
 			"md5-suffixed region name, with arbitrary byte rows, nil/empty/many family-qualifier-value maps, values up "+
 			"to 300 KB (above the compression chunk), and option combinations (families, time range incl. the open "+
-			"end, max versions, store limit/offset, cache blocks, consistency, priority, filter, durability, TTL, "+
+			"end, max versions, store limit/offset, cache blocks, consistency, priority, filter, durability, TTL (including zero and sub-millisecond durations), "+
 			"timestamps incl. the latest sentinel, delete-one-version, scan bounds/direction/number of rows/max result "+
 			"size/attributes/metrics); batched or SkipBatch, queue size and flush interval drawn (so that calls are "+
 			"grouped into multi-requests across regions), snappy on/off. One sender on an in-memory connection; every "+
